@@ -96,9 +96,18 @@ func valueOf(code int, key string, variant int) *recpb.Record {
 		return &recpb.Record{Key: []byte(key)}
 	case code == -4:
 		return &recpb.Record{Key: []byte(key), Value: []byte("garbage")}
+	case code == -6:
+		// the very bytes of the record the searching node holds locally and which has expired by the validator's rule since it
+		// was stored (set by the case that planted it; cases run one after the other)
+		if simExpiredLocal != nil {
+			return &recpb.Record{Key: []byte(key), Value: append([]byte(nil), simExpiredLocal...)}
+		}
+		return &recpb.Record{Key: []byte(key), Value: []byte("garbage")}
 	}
 	return nil
 }
+
+var simExpiredLocal []byte
 
 // stdHook serves values, providers and write RPCs from the scenario.
 func stdHook(s *lkSc) respondHook {
